@@ -1,7 +1,7 @@
 (* C03/Property.v — property C03 (downloaded log and parameter tables equal the device tables).
    Theorems only; each is closed by `exact <lemma>` and followed by Print Assumptions.
    Model: C03/Model.v (Toc, TocFetcher, element parsers, TOC server, adversary), C03/ExtModel.v. *)
-From CF Require Import Common.Bytes C03.Model C03.ExtModel C03.Proofs C03.Fetch C03.Lookup C03.Live C03.Ext C03.Restart C03.Stale.
+From CF Require Import Common.Bytes C03.Model C03.ExtModel C03.Proofs C03.Fetch C03.Lookup C03.Live C03.Ext C03.Restart C03.Stale C03.Version.
 Open Scope Z_scope.
 
 (* Element decoding is the inverse of the firmware's wire encoding: for every entry with NUL-free
@@ -254,3 +254,22 @@ Print Assumptions C03_param_table_at_connected.
 Theorem C03_abandoned_ext_fetch_is_silent : forall s ch dt, x_on_packet (x_disconnect s) ch dt = (x_disconnect s, []).
 Proof. exact abandoned_ext_fetch_silent. Qed.
 Print Assumptions C03_abandoned_ext_fetch_is_silent.
+
+(* Which protocol generation a session uses (model C03/Version.v of PlatformService, tied to the real object driven
+   by packets).  For EVERY history of sessions of one Crazyflie object — any devices, any versions 0..255 or no magic
+   string (-1), same or different URI, in any order — the version the i-th session's table downloads read is the one
+   of the i-th device's own version reply. *)
+Theorem C03_sessions_use_their_own_versions : forall (l : list (Z * pdev)) s,
+  Forall (fun ud => 0 <= pd_ver (snd ud) < 256) l ->
+  dones (snd (prun s (flat_map (fun ud => session (fst ud) (snd ud)) l))) = map (fun ud => used_version (snd ud)) l.
+Proof. exact sessions_use_their_own_versions. Qed.
+Print Assumptions C03_sessions_use_their_own_versions.
+
+(* a per-URI memo of the version is refuted: version 3 then version 10 on the same URI makes the second session use
+   3, i.e. the legacy commands whose index is ONE byte (entry 300 is not addressable) *)
+Theorem C03_uri_memo_refuted :
+  mrun_sessions (mkM (-1) None) [(7, mkPd true 3); (7, mkPd true 10)] = [3; 3] /\
+  map (fun ud => used_version (snd ud)) [(7, mkPd true 3); (7, mkPd true 10)] = [3; 10] /\
+  (4 <=? 3) = false /\ (4 <=? 10) = true /\ item_req false 300 = [0; 300].
+Proof. exact uri_memo_refuted. Qed.
+Print Assumptions C03_uri_memo_refuted.
